@@ -373,8 +373,10 @@ def run_check(plugin, pid, tier, seed):
             raise
         except Exception:
             ctx.broke('correspondence', 'harness-exception', traceback.format_exc())
-        # 5. search
-        if ctx.broken and not ctx.failures:
+        # 5. search (a failure that a standing known finding already lists must not switch the search off:
+        #    only an UNLISTED concrete failing input makes the search unnecessary)
+        _known_now = {f['signature'] for f in load_findings(pid) if f['status'] == 'known'}
+        if ctx.broken and not any(fl.signature not in _known_now for fl in ctx.failures):
             try:
                 plugin.search(ctx)
             except Exception:
